@@ -17,6 +17,9 @@ def step (d : DSt) (ws : List String) : Option (DSt × String) :=
   | ["free", ch] => do pure ({ d with slab := free d.slab (← ch.toNat?) }, "FREED")
   | ["period", idle] => do
     pure (d, match heartbeatPeriod (← idle.toNat?) with | some p => toString p | none => "never")
+  | ["poll", w, dl] => do
+    let r := poll inputFirst ((← w.toNat?) == 1) ((← dl.toNat?) == 1)
+    pure (d, match r with | .frame => "frame" | .timeout => "timeout" | .pending => "pending")
   | _ => none
 
 end Driver.Limits
